@@ -135,7 +135,7 @@ package postgres
 //@ ensures err != nil ==> result == nil
 
 //@ func (*PostgresStoreWorker).acquireLock
-//@ props C16 C17 C09 C02 C20
+//@ props C16 C17 C09 C02 C20 C06
 //@ records handler
 //@ nopanic C13
 //@ ghostdb store
@@ -203,7 +203,7 @@ package postgres
 //@ ensures err != nil ==> result == nil
 
 //@ func (*PostgresStoreWorker).createTasks
-//@ props C16 C17 C05 C08 C02 C20 C07 C13
+//@ props C16 C17 C05 C08 C02 C20 C07 C13 C06
 //@ records handler
 //@ nopanic C13
 //@ ghostdb store
